@@ -153,6 +153,69 @@ def slavePatches (merged : List (N × N)) : List N := merged.map (·.2)
 
 end Asm
 
+/-! ### histories of `Mesh` calls (merges declared at different times, re-assembly) -/
+
+/-- The calls of `Mesh` that matter for the vertex partition. `query` stands for anything that only
+    reads the slave set (`PatchList.is_slave`, `slave_patches`). -/
+inductive Step (P N : Type) where
+  | add (op : Op P N)
+  | merge (master slave : N)
+  | query
+  | assemble
+  | clear
+
+/-- The part of `Mesh` that matters: depot, `patch_list.merged`, `vertex_list`, `Block.vertices` of the
+    blocks in `block_list`. -/
+structure MeshSt (P N : Type) where
+  depot : List (Op P N) := []
+  merged : List (N × N) := []
+  vl : VList P N := {}
+  blocks : List (List (Vertex P)) := []
+
+section Hist
+variable {P N : Type} [DecidableEq N] [LE N] [DecidableLE N] (close : P → P → Bool)
+
+/-- one call; `assemble` reads the slave set from the pairs merged *so far* and appends to the
+    lists as they are (a second `assemble` without `clear` adds the blocks again, as the code does) -/
+def MeshSt.step (st : MeshSt P N) : Step P N → MeshSt P N
+  | .add op => { st with depot := st.depot ++ [op] }
+  | .merge m s => { st with merged := st.merged ++ [(m, s)] }
+  | .query => st
+  | .assemble =>
+      let r := assemble close (slavePatches st.merged) st.vl st.depot
+      { st with vl := r.1, blocks := st.blocks ++ r.2 }
+  | .clear => { st with vl := {}, blocks := [] }
+
+/-- a history; the state after it and what every `assemble` left behind (vertex list, blocks) -/
+def runHist : MeshSt P N → List (Step P N) → MeshSt P N × List (VList P N × List (List (Vertex P)))
+  | st, [] => (st, [])
+  | st, s :: rest =>
+      let st' := st.step close s
+      let r := runHist st' rest
+      match s with
+      | .assemble => (r.1, (st'.vl, st'.blocks) :: r.2)
+      | _ => r
+
+/-- the operations added by a history -/
+def addsOf : List (Step P N) → List (Op P N)
+  | [] => []
+  | .add op :: rest => op :: addsOf rest
+  | _ :: rest => addsOf rest
+
+/-- the pairs merged by a history -/
+def mergesOf : List (Step P N) → List (N × N)
+  | [] => []
+  | .merge m s :: rest => (m, s) :: mergesOf rest
+  | _ :: rest => mergesOf rest
+
+/-- no `assemble` among the steps -/
+def noAssemble : List (Step P N) → Bool
+  | [] => true
+  | .assemble :: _ => false
+  | _ :: rest => noAssemble rest
+
+end Hist
+
 /-! ### instance used by the line protocol -/
 
 /-- `constants.TOL` (the float64 value, exactly, re-read from the source on every run) -/
@@ -226,9 +289,26 @@ def handleCorner (args : List String) : Option String :=
       if c < 8 then some (showStrList (sort (patchesAtCorner op c))) else none
   | _ => none
 
+/-- `A:<op>` add, `M:<master>,<slave>` merge, `Q` query, `X` assemble, `C` clear -/
+def parseStep? (s : String) : Option (Step V3 String) :=
+  if s = "Q" then some .query else if s = "X" then some .assemble else if s = "C" then some .clear
+  else if s.startsWith "A:" then (parseOp? (s.drop 2).toString).map .add
+  else if s.startsWith "M:" then
+    match ((s.drop 2).toString).splitOn "," with
+    | [m, sl] => if m.isEmpty || sl.isEmpty then none else some (.merge m sl)
+    | _ => none
+  else none
+
+/-- `c05.hist <step> …` → for every `assemble` of the history: block indexes and the registry -/
+def handleHist (args : List String) : Option String := do
+  let steps ← args.mapM parseStep?
+  let r := runHist closeV3 {} steps
+  some ("H " ++ " | ".intercalate (r.2.map (fun (vl, bs) => s!"B={";".intercalate (bs.map showIdx)} " ++ showVL vl)))
+
 def handle (op : String) (args : List String) : Option String :=
   match op with
   | "c05.asm" => handleAsm args
+  | "c05.hist" => handleHist args
   | "c05.adds" => handleAdds args
   | "c05.corner" => handleCorner args
   | _ => none
